@@ -367,6 +367,14 @@ func (e *Engine) Mark(h Hash) {
 		m.Invalid[h] = true
 		if n != nil && n != m.Genesis {
 			m.Remove(n)
+			if pp := n.Parent; pp != nil && len(m.LiveChildren(pp)) > 0 {
+				if b := e.bi(in); m.HookPruned || b.ids[n.Hash] == b.ids[pp.Hash] {
+					if m.TrimTip == nil {
+						m.TrimTip = map[Hash]bool{}
+					}
+					m.TrimTip[pp.Hash] = true
+				}
+			}
 		}
 		after := e.snap(in)
 		in.Snap = after
